@@ -172,7 +172,7 @@ def lemma_engine(world, lem):
 
 def _reachable(vcs):
     """Some normal exit has a satisfiable path condition (checked by a killable back end)."""
-    for v in vcs[:4]:
+    for v in sorted(vcs, key=lambda v: len(v.pc))[:24]:
         s = z3.Solver()
         for c in v.pc:
             s.add(c)
